@@ -39,9 +39,12 @@ def _ctx_rule_of(fi: FuncInfo, e: ast.expr):
     if isinstance(e, ast.Name):
         for a in fi.params():
             if a.arg == e.id and a.annotation is not None:
-                t = ast.unparse(a.annotation)
-                if t.endswith("Context") and "." in t:
-                    r = t.rsplit(".", 1)[-1][: -len("Context")]
+                import re
+
+                # `ZorgFileParser.<Rule>Context`, possibly wrapped: Optional[...], "...", X | None
+                ms = set(re.findall(r"\.(\w+)Context\b", ast.unparse(a.annotation)))
+                if len(ms) == 1:
+                    r = ms.pop()
                     return r[0].lower() + r[1:]
     if isinstance(e, ast.Call) and isinstance(e.func, ast.Attribute) and not e.args:
         return e.func.attr.rstrip("_")
